@@ -223,3 +223,24 @@ pub proof fn lemma_two_pole_form_dominates(a: real, c: real, d1: real, d0: real)
     assert(d1 * d1 - 2real * c * (d1 * w) + w * w == (w - c * d1) * (w - c * d1) + (1real - c * c) * (d1 * d1)) by(nonlinear_arith);
     assert((w - c * d1) * (w - c * d1) >= 0real) by(nonlinear_arith);
 }
+// Double pole with input (the high-pass of RoofingFilter, the cycle recursion of CyberCycle):  h' = u + 2 r h1 - r^2 h2  is the cascade
+// w' = u + r w,  h' = w' + r h1  with  w = h1 - r h2.  For |r| <= rho < 1 and |u| <= ub:  |w| <= wb and |h| <= hb for ever,
+// where (1 - rho) wb == ub and (1 - rho) hb == wb.
+pub proof fn lemma_double_pole_forced(r: real, rho: real, u: real, h1: real, h2: real, ub: real, wb: real, hb: real)
+    requires -rho <= r <= rho, 0real <= rho < 1real, -ub <= u <= ub, -wb <= h1 - r * h2 <= wb, -hb <= h1 <= hb,
+        (1real - rho) * wb == ub, (1real - rho) * hb == wb, ub >= 0real
+    ensures ({ let hn = u + 2real * r * h1 - (r * r) * h2;
+               -wb <= hn - r * h1 <= wb && -hb <= hn <= hb }),
+        wb >= 0real, hb >= 0real
+{
+    let w = h1 - r * h2;
+    let hn = u + 2real * r * h1 - (r * r) * h2;
+    assert(wb >= 0real) by(nonlinear_arith) requires (1real - rho) * wb == ub, ub >= 0real, rho < 1real;
+    assert(hb >= 0real) by(nonlinear_arith) requires (1real - rho) * hb == wb, wb >= 0real, rho < 1real;
+    assert(r * w == r * h1 - (r * r) * h2) by(nonlinear_arith) requires w == h1 - r * h2;
+    assert(hn - r * h1 == u + r * w) by(nonlinear_arith) requires hn == u + 2real * r * h1 - (r * r) * h2, r * w == r * h1 - (r * r) * h2;
+    assert(-(rho * wb) <= r * w <= rho * wb) by(nonlinear_arith) requires -rho <= r <= rho, -wb <= w <= wb, rho >= 0real, wb >= 0real;
+    assert(ub + rho * wb == wb) by(nonlinear_arith) requires (1real - rho) * wb == ub;
+    assert(-(rho * hb) <= r * h1 <= rho * hb) by(nonlinear_arith) requires -rho <= r <= rho, -hb <= h1 <= hb, rho >= 0real, hb >= 0real;
+    assert(wb + rho * hb == hb) by(nonlinear_arith) requires (1real - rho) * hb == wb;
+}
